@@ -130,13 +130,14 @@ def simplicial (k : Kernel) : Bool :=
 
 def subsetL (a b : List Nat) : Bool := a.all b.contains
 
-/-- link of a simplex: the faces opposite to it in its cofaces -/
+def insertLex (x : List Nat) : List (List Nat) → List (List Nat)
+  | [] => [x]
+  | y :: ys => if lexLe x y then (if x == y then y :: ys else x :: y :: ys) else y :: insertLex x ys
+
+/-- link of a simplex: the faces opposite to it in its cofaces (ascending, duplicate-free) -/
 def linkOf (k : Kernel) (sigma : List Nat) : List (List Nat) :=
-  sortL' ((k.simplices.filter (fun t => subsetL sigma t && t.length != sigma.length)).map
-    (fun t => t.filter (fun v => !sigma.contains v)))
-where
-  sortL' (l : List (List Nat)) : List (List Nat) :=
-    (l.foldl (fun acc x => if acc.contains x then acc else acc ++ [x]) []).mergeSort (fun a b => lexLe a b)
+  ((k.simplices.filter (fun t => subsetL sigma t && t.length != sigma.length)).map
+    (fun t => t.filter (fun v => !sigma.contains v))).foldr insertLex []
 
 /-- `Lk(a) ∩ Lk(b) = Lk(ab)` for the halfedge `h = a → b` of a simplicial live mesh -/
 def linkCondition (k : Kernel) (h : Nat) : Bool :=
